@@ -167,7 +167,6 @@ End Real.
 
 (* ---- non-vacuity: the tree of TreeStage.v, switch on and /s/x = 9 (the array at its default):
    the saved body is "/e true\n/s/x 9\n", both lines inside the fragment ----------------------- *)
-Definition opts_default : popts := {| lossless := true; prec := 2; linelength := 80; compress := true |}.
 Definition fx_state2 : state := [[SaveModel.VT true]; [SaveModel.VI 9]; [SaveModel.VI 1; SaveModel.VI 1; SaveModel.VI 1]].
 
 Lemma fx_full2 : full_conditions fx_tapp fx_state2.
